@@ -222,6 +222,8 @@ func c19History(e *core.Env, r *core.Rand, idx int64) {
 			op = c19Op{"set-force", names[r.Intn(len(names))], -1}
 		case k < 85:
 			op = c19Op{"set-write-fault", names[r.Intn(len(names))], r.Intn(nT)}
+		case k < 89:
+			op = c19Op{"set-create-existing", names[r.Intn(len(names))], r.Intn(nT)}
 		default:
 			op = c19Op{"set", names[r.Intn(len(names))], r.Intn(nT)}
 		}
@@ -245,6 +247,10 @@ func c19History(e *core.Env, r *core.Rand, idx int64) {
 			expectOK = false
 		case "set-force":
 			args = []string{"bookmarks", "set", "--force", missing, op.Name}
+		case "set-create-existing":
+			// --create on a target that already exists must fail and must not touch the database
+			args = []string{"bookmarks", "set", "--create", targetArgs[op.Target], op.Name}
+			expectOK = false
 		case "set-write-fault":
 			// the database cannot be written (it is a dangling symlink into a missing directory): the command must not report success
 			args = []string{"bookmarks", "set", targetArgs[op.Target], op.Name}
@@ -403,8 +409,12 @@ func c19Observe(e *core.Env, r *core.Rand, run func(args ...string) (int, string
 			e.Violation("bookmarks-info-differs-from-map", fmt.Sprintf("`bookmarks info @%s`: exit %d output %q; the map model says present=%v path=%q", k, code, trunc(out, 200), present, want), w())
 			return false
 		}
-		// resolution through an evaluation command
-		code, out, _, ok = run("total", "--decimal", "--no-style", "--no-warn", "@"+k)
+		// resolution through an evaluation command (sometimes with a blank argument in front, which klog documents as ignored)
+		targs := []string{"total", "--decimal", "--no-style", "--no-warn", "@" + k}
+		if r.Chance(1, 4) {
+			targs = []string{"total", "--decimal", "--no-style", "--no-warn", r.Pick("", " ", "  "), "@" + k}
+		}
+		code, out, _, ok = run(targs...)
 		if !ok {
 			return false
 		}
